@@ -28,8 +28,8 @@ class _Processor:
         self.actor_run = middleware_wrapper(self._actor_run, name="actor_run")
         self.actor_run._repid_signal_emitter = self._conn.middleware.emit_signal
         self._processed = 0
-        # ids of the messages whose report to the broker (ack / nack / requeue) has been started
-        self._disposing: set[str] = set()
+        # ids of the messages whose disposition (ack / nack / requeue) has been started
+        self._disposing: set[str] = _conn._disposing
 
     async def get_payload(self, initial_payload: str) -> str:
         if _ArgsBucketInMessageId.check(initial_payload):
